@@ -382,7 +382,7 @@ func (g *Syn) Stmt(sd int, inFunc bool, d int) *ir.Node {
 func (g *Syn) Program(max int) *ir.Node {
 	p := ir.N(ir.Program, "")
 	p.Kids = []*ir.Node{}
-	for i, k := 0, 1+g.R.Intn(max, "ntop"); i < k; i++ {
+	for i, k := 0, g.R.Intn(max+1, "ntop"); i < k; i++ { // also the empty program (a file with nothing but white space and comments)
 		p.Kids = append(p.Kids, g.Stmt(g.StmtDepth, false, g.MaxDepth))
 	}
 	if !g.NoScale && g.R.Intn(16, "scale") == 0 {
